@@ -37,6 +37,9 @@ VERIF_REPO=$W ./check $ID --tier $TIER > /tmp/seed-check-$$.log 2>&1; rc=$?
 echo "== check $ID $TIER rc=$rc"
 grep -h "VIOLATION-KEY" /tmp/seed-check-$$.log | sed 's/.*VIOLATION-KEY\[\([^]]*\)\].*/\1/' | sort | uniq -c | sort -rn | head -5
 grep -c "^VIOLATION" /tmp/seed-check-$$.log
+# seedcheck: remove the per-copy build output and work directories of the driver
+SFX=$(python3 -c "import zlib,sys;print('.%x' % (zlib.crc32(sys.argv[1].encode()) & 0xffffffff))" "$W")
+rm -rf /verif/.work/*$SFX /verif/.work/evidence$SFX /verif/.bin/*$SFX*
 rm -rf $W /tmp/seed-demo-$$.log /tmp/seed-tests-$$.log
 mv /tmp/seed-check-$$.log /var/tmp/seedcheck-last-$ID.log
 exit $rc
